@@ -9,7 +9,7 @@ import pathlib
 TYPES = {
     "int": int, "float": float, "str": str, "list": list, "dict": dict, "bool": bool,
     "path": pathlib.Path, "NoneType": type(None), "tuple": tuple, "type": type, "set": set,
-    "object": object,
+    "object": object, "bytes": bytes, "complex": complex, "frozenset": frozenset,
 }
 TYPE_NAMES = {v: k for k, v in TYPES.items()}
 
